@@ -300,8 +300,8 @@ theorem exp2_int (fm : Bool) (x : Nat) (n : Int) (hx : Finite x) (hn : toReal x 
       subst this; constructor <;> linarith
   exact exp2_unit fm x hx h i hi (by rw [hn]; linarith) (by rw [hn]; linarith)
 
-/-- arguments in `[0, 1)` -/
-theorem exp2_frac (fm : Bool) (x : Nat) (hx : Finite x) (h0 : 0 ≤ toReal x) (h1 : toReal x < 1) :
+/-- arguments in `[0, 1]` -/
+theorem exp2_frac (fm : Bool) (x : Nat) (hx : Finite x) (h0 : 0 ≤ toReal x) (h1 : toReal x ≤ 1) :
     ∃ r, exp2 fm x = .ok r ∧ Finite r ∧ |toReal r - (2:ℝ) ^ (toReal x)| ≤ (91 / 10 ^ 8) * (2:ℝ) ^ (toReal x) := by
   have h : |toReal x| ≤ 124 := by rw [abs_of_nonneg h0]; linarith
   obtain ⟨i, s, hi, hs, t1, t2, t3⟩ := ipart_spec x hx h
